@@ -17,7 +17,7 @@ import (
 type crowdCase struct {
 	N       int    `json:"calls"`
 	DelayMs int    `json:"reply_after_ms"`
-	Path    string `json:"path"` // udp | broadcast
+	Path    string `json:"path"` // udp | broadcast | tcp
 	AnyAddr bool   `json:"bind_any,omitempty"`
 }
 
@@ -41,6 +41,19 @@ func runCrowd(c crowdCase, scale int) *rp.Fail {
 	}
 	if c.Path == "udp" {
 		cfg.Devices = []hook.DeviceCfg{{Serial: serial, HasAddr: true, IP: [4]byte{127, 0, 1, 77}, Port: ctrl.Addr.Port(), Protocol: "udp"}}
+	}
+	if c.Path == "tcp" {
+		tc, err := f.TCP([4]byte{127, 0, 1, 78}, 0, func(e *farm.TCP, r farm.Received) {
+			if len(r.Data) != 64 {
+				r.Conn.Close()
+				return
+			}
+			e.PlayTCP(r, []farm.Action{{Delay: D, Data: reply(r.Data)}})
+		})
+		if err != nil {
+			return nil
+		}
+		cfg.Devices = []hook.DeviceCfg{{Serial: serial, HasAddr: true, IP: [4]byte{127, 0, 1, 78}, Port: tc.Addr.Port(), Protocol: "tcp"}}
 	}
 	u := hook.Real(cfg)
 	var mu sync.Mutex
@@ -90,10 +103,10 @@ func checkCrowd(c crowdCase) *rp.Fail {
 }
 
 func sweepCrowd(yield func(crowdCase) bool) {
-	cases := []crowdCase{{N: 240, DelayMs: 300, Path: "udp"}, {N: 160, DelayMs: 200, Path: "broadcast"}, {N: 320, DelayMs: 400, Path: "udp", AnyAddr: true}, {N: 200, DelayMs: 250, Path: "udp"}}
+	cases := []crowdCase{{N: 240, DelayMs: 300, Path: "udp"}, {N: 160, DelayMs: 200, Path: "broadcast"}, {N: 320, DelayMs: 400, Path: "udp", AnyAddr: true}, {N: 200, DelayMs: 250, Path: "udp"}, {N: 200, DelayMs: 300, Path: "tcp"}}
 	if ev.Thorough() {
 		for i := 0; i < 12; i++ {
-			cases = append(cases, crowdCase{N: 200 + 100*(i%8), DelayMs: 200 + 100*(i%4), Path: []string{"udp", "udp", "broadcast"}[i%3], AnyAddr: i%2 == 1})
+			cases = append(cases, crowdCase{N: 200 + 100*(i%8), DelayMs: 200 + 100*(i%4), Path: []string{"udp", "udp", "broadcast", "tcp"}[i%4], AnyAddr: i%2 == 1})
 		}
 	}
 	for i, c := range cases {
